@@ -26,6 +26,11 @@ abbrev Log := List (Nat × Nat)
 
 structure SNode (V : Type) where
   fn : List (Option Nat) → List (List Nat) → List V → V
+  /-- which wired inputs `Process()` pulls: given the values collected so far (one per dependency
+      already considered; for a dependency that was NOT pulled, its stored value, which a sensible
+      `fn` does not use), is the next dependency pulled with `.Value()`?
+      `fun _ => true` = the processor reads all its wired inputs (guard `ReadsAll`). -/
+  reads : List V → Bool := fun _ => true
   scalars : List (Option Nat)
   arrays : List (List Nat)
   cache : V
@@ -86,7 +91,8 @@ def evalSpec : Nat → Graph V → Nat → V
     | .param x _ => x
     | .struct s => s.fn s.scalars s.arrays (s.deps.map (fun d => evalSpec f g d))
 
-/-- the user's `Process()` pulling its inputs one after the other with `.Value()`:
+/-- the user's `Process()` pulling ALL its inputs one after the other with `.Value()`
+    (`pullM` with `reads = fun _ => true`, lemma `pullM_all`):
     evaluate the dependency, read its value at that moment, go on in the new state -/
 def pull (ev : Graph V → Nat → Graph V × Log) : Graph V → List Nat → Graph V × List V × Log
   | g, [] => (g, [], [])
@@ -95,6 +101,18 @@ def pull (ev : Graph V → Nat → Graph V × Log) : Graph V → List Nat → Gr
     let v := val r.1 d
     let r2 := pull ev r.1 ds
     (r2.1, v :: r2.2.1, r.2 ++ r2.2.2)
+
+/-- `Process()` of a processor that may skip inputs: dependency `d` is evaluated only if
+    `reads acc` says so; otherwise nothing is evaluated and the stored value stands in -/
+def pullM (ev : Graph V → Nat → Graph V × Log) (reads : List V → Bool) :
+    Graph V → List Nat → List V → Graph V × List V × Log
+  | g, [], acc => (g, acc, [])
+  | g, d :: ds, acc =>
+    if reads acc then
+      let r := ev g d
+      let r2 := pullM ev reads r.1 ds (acc ++ [val r.1 d])
+      (r2.1, r2.2.1, r.2 ++ r2.2.2)
+    else pullM ev reads g ds (acc ++ [val g d])
 
 /-- `process()`: cache := Process(), version++, remember the dependency versions, clear the flag -/
 def SNode.executed (s : SNode V) (g1 : Graph V) (vals : List V) : SNode V :=
@@ -109,7 +127,7 @@ def eval : Nat → Graph V → Nat → Graph V × Log
     | .param _ _ => (g, [])
     | .struct s =>
       if outdated (f+1) g i then
-        let r := pull (fun g d => eval f g d) g s.deps
+        let r := pullM (fun g d => eval f g d) s.reads g s.deps []
         (r.1.set i (.struct (s.executed r.1 r.2.1)), r.2.2 ++ [(i, s.version + 1)])
       else (g, [])
 
@@ -123,6 +141,9 @@ def Ranked (rank : Nat → Nat) (F : Nat) (g : Graph V) : Prop :=
   (∀ i, rank i < F) ∧ ∀ i s, g i = .struct s → ∀ d ∈ s.deps, rank d < rank i
 
 def Acyclic (F : Nat) (g : Graph V) : Prop := ∃ rank, Ranked rank F g
+
+/-- the guard on processors: every struct node's `Process()` pulls ALL its wired inputs -/
+def ReadsAll (g : Graph V) : Prop := ∀ i s, g i = .struct s → s.reads = fun _ => true
 
 def Outdated (F : Nat) (g : Graph V) (i : Nat) : Bool := outdated F g i
 def Spec (F : Nat) (g : Graph V) (i : Nat) : V := evalSpec F g i
